@@ -145,6 +145,7 @@ type CrashSentinel struct{ Seq int }
 type Store struct {
 	mu      sync.Mutex
 	name    string
+	kmu     sync.RWMutex // guards kinds only (monitors look kinds up from inside the commit section)
 	kinds   map[schema.GroupKind]*KindInfo
 	objs    map[Key]Obj
 	history map[Key][]version
@@ -177,22 +178,25 @@ func NewStore(name string) *Store {
 func (s *Store) Name() string { return s.name }
 
 func (s *Store) RegisterKind(k KindInfo) {
-	s.mu.Lock()
-	defer s.mu.Unlock()
+	s.kmu.Lock()
+	defer s.kmu.Unlock()
 	kk := k
 	s.kinds[k.GVK.GroupKind()] = &kk
 }
 
 func (s *Store) Kind(gk schema.GroupKind) (*KindInfo, bool) {
-	s.mu.Lock()
-	defer s.mu.Unlock()
+	s.kmu.RLock()
+	defer s.kmu.RUnlock()
 	k, ok := s.kinds[gk]
 	return k, ok
 }
 
+// kindLocked is the lookup used while s.mu is held.
+func (s *Store) kind(gk schema.GroupKind) (*KindInfo, bool) { return s.Kind(gk) }
+
 func (s *Store) Kinds() []KindInfo {
-	s.mu.Lock()
-	defer s.mu.Unlock()
+	s.kmu.RLock()
+	defer s.kmu.RUnlock()
 	var out []KindInfo
 	for _, k := range s.kinds {
 		out = append(out, *k)
@@ -345,7 +349,7 @@ func (s *Store) keyFor(k *KindInfo, ns, name string) Key {
 func (s *Store) Peek(gk schema.GroupKind, ns, name string) Obj {
 	s.mu.Lock()
 	defer s.mu.Unlock()
-	k, ok := s.kinds[gk]
+	k, ok := s.kind(gk)
 	if !ok {
 		return nil
 	}
@@ -606,7 +610,7 @@ func asInt64(v any) (int64, bool) {
 }
 
 func (s *Store) namespaceExistsLocked(ns string) bool {
-	nsKind, ok := s.kinds[schema.GroupKind{Kind: "Namespace"}]
+	nsKind, ok := s.kind(schema.GroupKind{Kind: "Namespace"})
 	if !ok {
 		return true // namespaces not modelled in this store
 	}
